@@ -279,7 +279,7 @@ def main(argv=None):
     for line in known_lines:
         print(line)
     for line, fl in viol_lines:
-        print(f'[{pid}] violated clause: {fl["clause"]} :: {str(fl["detail"])[:600]}')
+        print(f'[{pid}] violated clause: {fl["clause"]} :: {_brief(fl["detail"])}')
         print(line)
     if merged['inconclusive']:
         print(f'[{pid}] inconclusive: {len(merged["inconclusive"])} (first: {str(merged["inconclusive"][0])[:300]})')
@@ -295,6 +295,12 @@ def main(argv=None):
     if merged['inconclusive'] and merged['evaluations'] == 0:
         return 2
     return 0
+
+
+def _brief(detail, n=700):
+    if isinstance(detail, dict):
+        detail = {k: v for k, v in detail.items() if k != 'case'}
+    return str(detail)[:n]
 
 
 def _replay(pid, mod, path):
@@ -314,7 +320,7 @@ def _replay(pid, mod, path):
         return 2
     if rec.failures:
         fl = rec.failures[0]
-        print(f'[{pid}] violated clause: {fl["clause"]} :: {str(fl["detail"])[:2000]}')
+        print(f'[{pid}] violated clause: {fl["clause"]} :: {_brief(fl["detail"], 2000)}')
         print(f'VIOLATION property={pid} replay={path}')
         return 1
     print(f'[{pid}] replay of {path}: property holds on this case')
